@@ -48,6 +48,42 @@ def norm(s): return ERR_RE.sub("err", s)
 
 def tstr(s): return "=" + s
 
+
+# ================================================================= width sweeps (shared)
+WIDTHS = (0, 1, 2, 15, 16, 17, 23, 24, 25, 31, 32, 33, 63, 64, 65, 127, 128, 129, 255, 256, 257, 1000)
+def width_sweep(which=None):
+    """every variable-LENGTH position of every structure, filled with n well-formed entries for n around every
+    head-width boundary and every plausible fan-out cap (the counterpart of the depth sweeps): the CDDL puts no
+    upper bound on any of them -> list of (position name, type, bytes, n)"""
+    out = []
+    sig = lambda i: A(B(b""), M((I(4), B(b"k%d" % i))), B(b"s%d" % i))
+    rec = lambda i: A(B(b""), M((I(4), B(b"k%d" % i))), B(b"c%d" % i))
+    key = lambda i: M((I(1), I(4)), (I(2), B(b"k%d" % i)))
+    for n in WIDTHS:
+        sigs = A(*[sig(i) for i in range(n)]); recs = A(*[rec(i) for i in range(n)])
+        out.append(("signatures", "CoseSign", enc(A(B(b""), M(), NULL, sigs)), n))
+        out.append(("mac-recipients", "CoseMac", enc(A(B(b""), M(), NULL, B(b"t"), recs)), n))
+        out.append(("encrypt-recipients", "CoseEncrypt", enc(A(B(b""), M(), NULL, recs)), n))
+        out.append(("recipient-recipients", "CoseRecipient", enc(A(B(b""), M(), NULL, recs)), n))
+        out.append(("nested-recipient-recipients", "CoseEncrypt", enc(A(B(b""), M(), NULL, A(A(B(b""), M(), NULL, recs)))), n))
+        out.append(("countersignatures", "Header", enc(M((I(7), sigs))), n))
+        out.append(("countersignatures-in-sign1", "CoseSign1", enc(A(B(b""), M((I(7), sigs)), NULL, B(b""))), n))
+        out.append(("header-extras", "Header", enc(M(*[(I(100 + i), I(i)) for i in range(n)])), n))
+        out.append(("header-text-extras", "Header", enc(M(*[(T("x%d" % i), I(i)) for i in range(n)])), n))
+        out.append(("protected-extras", "CoseMac0", enc(A(B(enc(M(*[(I(100 + i), I(i)) for i in range(n)]))) if n else B(b""), M(), NULL, B(b""))), n))
+        out.append(("crit", "Header", enc(M((I(2), A(*[T("c%d" % i) for i in range(n)])), *[(T("c%d" % i), I(i)) for i in range(n)])), n))
+        out.append(("key-ops", "CoseKey", enc(M((I(1), I(4)), (I(4), A(*[T("op%d" % i) for i in range(n)])))), n))
+        out.append(("key-params", "CoseKey", enc(M((I(1), I(4)), *[(I(-1 - i), B(b"p"))for i in range(n)])), n))
+        out.append(("keyset", "CoseKeySet", enc(A(*[key(i) for i in range(n)])), n))
+        out.append(("claims", "ClaimsSet", enc(M(*[(T("n%d" % i), I(i)) for i in range(n)])), n))
+        out.append(("claims-private", "ClaimsSet", enc(M(*[(I(-70000 - i), I(i)) for i in range(n)])), n))
+        out.append(("payload", "CoseSign1", enc(A(B(b""), M(), B(b"p" * n), B(b"s" * n))), n))
+        out.append(("kid", "Header", enc(M((I(4), B(b"k" * n)))), n))
+        out.append(("party-identity", "CoseKdfContext", enc(A(I(1), A(B(b"i" * n), B(b"n" * n), B(b"o" * n)), A(NULL, NULL, NULL), A(I(128), B(b"")), *[B(b"x") for _ in range(min(n, 3))])), n))
+        out.append(("extra-value-array", "Header", enc(M((I(100), A(*[I(i) for i in range(n)])))), n))
+        out.append(("extra-value-text", "ClaimsSet", enc(M((I(1), T("i" * n)))), n))
+    return [x for x in out if which is None or x[1] in which]
+
 # ================================================================= C16
 def label_palette():
     ints = sorted(set(x for x in LATTICE if -2**63 <= x < 2**63) | {2, 10, 22, 25, 100, 1000, -2, -10, -23, -26, -100, -1000,
@@ -87,6 +123,28 @@ def cases_C16(rng, tier):
             eq = "T" if a == b else "F"
             out.append(case("cmp", kind, enc(a), enc(b), fam=kind, expect="ok %s %s" % (cmp3(ea, eb), eq)))
     # triples: transitivity is implied by agreement with the encoded order; sample anyway via pairs above
+    # "usable for sorting map keys into either standard order": the crate's own map-key sorter on label sets that
+    # straddle sign and encoded-length classes must produce exactly the order of the encodings
+    def chk_sorted(order):
+        def f(c, o):
+            m = re.fullmatch(r"ok (\S+) ok ([0-9a-f]+)", o)
+            if not m: return "sorted key does not encode: %s" % o[:100]
+            ks = [enc(k) for k, _ in dec_all(bytes.fromhex(m.group(2)))[1]]
+            keyf = (lambda e: e) if order == "Lexicographic" else (lambda e: (len(e), e))
+            for a, b in zip(ks, ks[1:]):
+                if not keyf(a) < keyf(b): return "encoded keys not strictly ascending (%s before %s)" % (a.hex(), b.hex())
+            return None
+        return f
+    sp = [x for x in pal if x not in (I(0), I(1), I(2), I(3), I(4), I(5))]      # label 0: known finding of C20; 1..5: key fields
+    sets = [[a, b] for a, b in itertools.permutations([I(x) for x in (-1, -24, -25, -256, -257, -65536, -65537, -2**32 - 1, -2**63, 6, 23, 24, 255, 256, 65535, 65536, 2**32, 2**63 - 1)]
+                                                       + [T(""), T("a"), T("aa"), T("a" * 23), T("a" * 24), T("a" * 255), T("a" * 256)], 2)]
+    for k in (3, 4, 6):
+        sets += [rng.sample(sp, k) for _ in range(Q(tier, 150, 1500))]
+    if tier == "quick": sets = rng.sample(sets, 500)
+    for ls in sets:
+        d = gen_desc_key(rng, extra_labels=list(ls))
+        for order in ("Lexicographic", "LengthFirstLexicographic"):
+            out.append(case("canon", order, enc(d), fam="sort-map-keys", check=chk_sorted(order)))
     return out
 
 # ================================================================= C17
@@ -145,6 +203,20 @@ def cases_C17(rng, tier):
                 out.append(case("dec", ty, wrap(enc(T(t))), fam="position-text:" + name, expect_re=r"ok enc=[0-9a-f]*" + enc(T(t)).hex() + r"[0-9a-f]*"))
             else:
                 out.append(case("dec", ty, wrap(enc(T(t))), fam="position-text:" + name, expect_re=r"ok .*t" + t.encode().hex() + r"[,\]].*"))
+    # label-typed map-key positions x the KIND of the value stored under the label: classification of the label
+    # never depends on what the entry holds (nil, empty, false ... are values like any other)
+    vkinds = [("nil", b"\xf6"), ("undefined", b"\xf7"), ("false", b"\xf4"), ("true", b"\xf5"), ("zero", b"\x00"), ("neg", b"\x20"), ("empty-bstr", b"\x40"),
+              ("empty-text", b"\x60"), ("empty-array", b"\x80"), ("empty-map", b"\xa0"), ("tag", b"\xc1\x00"), ("float", b"\xf9\x3e\x00"), ("simple", b"\xe0")]
+    kpos = (("claim-name", "ClaimsSet", lambda x, v: head(5, 1) + x + v), ("claim-name-among", "ClaimsSet", lambda x, v: head(5, 3) + b"\x01\x61\x69" + x + v + b"\x02\x61\x73"),
+            ("header-label", "Header", lambda x, v: head(5, 1) + x + v), ("key-label", "CoseKey", lambda x, v: head(5, 2) + b"\x01\x04" + x + v),
+            ("protected-label", "CoseSign1", lambda x, v: b"\x84" + enc(B(head(5, 1) + x + v)) + b"\xa0\xf6\x40"))
+    kwin = sorted(set(list(range(-12, 45)) + [-65535, -65536, -65537, -70000, 100, 256, 10000, 12345, 2**63 - 1, -2**63] + CLAIM_REG + CLAIM_PRIV))
+    for name, ty, wrap in kpos:
+        for kn, v in vkinds:
+            for i in kwin:
+                out.append(case("dec", ty, wrap(enc(I(i)), v), fam="position-by-value-kind:%s:%s" % (name, kn), strict_err=True))
+            for t in ("", "a", "iss", "alg"):
+                out.append(case("dec", ty, wrap(enc(T(t)), v), fam="position-by-value-kind:%s:%s" % (name, kn), strict_err=True))
     return out
 
 # ================================================================= C15
@@ -272,6 +344,27 @@ def cases_C15(rng, tier):
         h = d_header(ctype=d_reg(1, n))
         d = ('a', [d_protected(None, h), D_EMPTY_HEADER, NULL, B(b"")])
         out.append(case("encdec", "CoseSign1", enc(d), fam="extra-built-ct", expect="ok %s ok %s" % (enc(pyspec.wire_value("CoseSign1", d)).hex(), pyspec.show(pyspec.assign("CoseSign1", d)))))
+    # interpreted positions of a key that is a MEMBER of a key set, at every index (an element the set decoder
+    # cannot represent is an error of the whole set, never a silently shorter set)
+    okkey = M((I(1), I(4)), (I(-1), B(b"k")))
+    def key_with(pos, n):
+        if pos == "label": return M((I(1), I(4)), (I(n), I(0)))
+        if pos == "kty": return M((I(1), I(n)))
+        if pos == "alg": return M((I(1), I(4)), (I(3), I(n)))
+        return M((I(1), I(4)), (I(4), A(I(n))))
+    for pos in ("label", "kty", "alg", "key-op"):
+        for n in oor + inr:
+            for size in (1, 2, 3):
+                for idx in range(size):
+                    ks = [okkey] * size; ks[idx] = key_with(pos, n)
+                    b = enc(A(*ks))
+                    if n in oor:
+                        out.append(case("dec", "CoseKeySet", b, fam="keyset-member-range:" + pos, expect="err:Range", strict_err=True))
+                    elif pos == "label":
+                        out.append(case("dec", "CoseKeySet", b, fam="keyset-member-range-ok", expect_re=r"ok .*" + re.escape(pyspec.show(I(n))) + r".*"))
+                        out.append(case("rt", "CoseKeySet", b, fam="keyset-member-range-ok", expect="ok %s T T" % b.hex()))
+                    else:
+                        out.append(case("dec", "CoseKeySet", b, fam="keyset-member-range-inr", strict_err=True))
     return out
 
 # ================================================================= C14
@@ -325,6 +418,21 @@ def cases_C14(rng, tier):
                 out.append(case("rt", ty, b, fam="depth-sweep-rt", key=(ty, b)))
                 if ty in TAGGED_TYPES:
                     out.append(case("dectag", ty, head(6, MSG_TAG[ty]) + b, fam="depth-sweep-tagged"))
+    # a tag over something that merely CONTAINS an accepted body (encoded-CBOR byte string, tag 24 and friends,
+    # one-element array, map value): nothing may look through a wrapper, on either entry point, under any tag
+    for ty in TAGGED_TYPES:
+        body = enc(gen_msg(rng, ty, 1)); own = head(6, MSG_TAG[ty])
+        wraps = [enc(B(body)), enc(B(own + body)), b"\x81" + body, b"\x81" + own + body, b"\xa1\x00" + body, enc(T(body.hex())),
+                 b"\x5f" + enc(B(body)) + b"\xff", enc(B(enc(B(body))))]
+        for w in wraps:
+            out.append(case("dec", ty, w, fam="wrapped-body", expect_re=r"err:\w+"))
+            out.append(case("dectag", ty, w, fam="wrapped-body", expect_re=r"err:\w+"))
+            out.append(case("dectag", ty, own + w, fam="wrapped-body-own-tag", expect_re=r"err:\w+"))
+            for t in sorted(set(TAGS + list(MSG_TAG.values()) + [1, 4, 5, 21, 22, 23, 24, 25, 26, 27, 32, 36, 63, 64, 100, 256, 55800, 2**32])):
+                x = head(6, t) + w
+                out.append(case("dec", ty, x, fam="tag-over-wrapped-body", expect_re=r"err:\w+"))
+                out.append(case("dectag", ty, x, fam="tag-over-wrapped-body", expect_re=r"err:\w+"))
+                out.append(case("dectag", ty, own + x, fam="own-tag-over-tag-over-wrapped-body", expect_re=r"err:\w+"))
     return out
 
 def post_C14(cases, impl):
@@ -423,6 +531,9 @@ def cases_C13(rng, tier):
             tb = head(6, t) + b
             out.append(case("dec", ty, tb, fam="base", key=(ty, tb)))
             out.append(case("decval", ty, tb, fam="api-decode", key=(ty, tb), impl_only=True))
+    # every variable-length position filled with n well-formed entries (no CDDL upper bound on any of them)
+    for name, ty, b, n in width_sweep(None):
+        out.append(case("dec", ty, b, fam="width-sweep:" + name, **({"expect_re": r"ok .*"} if n >= 1 else {})))
     return out
 
 def post_C13(cases, impl):
@@ -924,6 +1035,8 @@ def cases_C07(rng, tier):
                 if ty in TAGGED_TYPES:
                     out.append(case("rttag", ty, head(6, MSG_TAG[ty]) + b, fam="rttag", key=(ty, head(6, MSG_TAG[ty]) + b)))
                     out.append(case("dectag", ty, head(6, MSG_TAG[ty]) + b, fam="dec", key=(ty, head(6, MSG_TAG[ty]) + b)))
+    for name, ty, b, n in width_sweep():
+        out.append(case("rt", ty, b, fam="width-sweep:" + name, **({"expect_re": r"ok [0-9a-f]+ T T"} if n >= 1 else {})))
     return out
 
 def post_C07(cases, impl):
@@ -985,6 +1098,9 @@ def cases_C08(rng, tier):
     for t in CT_TEXT_BAD:
         out.append(case("dec", "Header", enc(M((I(3), T(t)))), fam="content-type-bad", expect_re=r"err:\w+"))
     out += combos.header_combo_cases(case, 1) + (combos.header_combo_cases(case, 2) if tier != 'quick' else [])
+    # every variable-length position filled with n well-formed entries (no CDDL upper bound on any of them)
+    for name, ty, b, n in width_sweep(("Header", "CoseSign1", "CoseMac0")):
+        out.append(case("dec", ty, b, fam="width-sweep:" + name, **({"expect_re": r"ok .*"} if n >= 1 else {})))
     return out
 
 def post_groups(cases, impl):
@@ -1068,6 +1184,9 @@ def cases_C09(rng, tier):
                 out.append(case("rt", ty, b, fam="depth-sweep-rt", key=(ty, b)))
                 if ty in TAGGED_TYPES:
                     out.append(case("dectag", ty, head(6, MSG_TAG[ty]) + b, fam="depth-sweep-tagged"))
+    # every variable-length position filled with n well-formed entries (no CDDL upper bound on any of them)
+    for name, ty, b, n in width_sweep(("CoseSign", "CoseMac", "CoseEncrypt", "CoseRecipient", "CoseSign1", "CoseMac0")):
+        out.append(case("dec", ty, b, fam="width-sweep:" + name, **({"expect_re": r"ok .*"} if n >= 1 else {})))
     return out
 
 # ================================================================= C10
@@ -1089,6 +1208,9 @@ def cases_C10(rng, tier):
         out.append(case("dec", "CoseKey", enc(wk), fam="key-kind"))
         out.append(case("dec", "CoseKeySet", enc(A(M((I(1), I(1))), wk)), fam="keyset-element-kind"))
     out += combos.key_combo_cases(case, 1) + (combos.key_combo_cases(case, 2) if tier != 'quick' else [])
+    # every variable-length position filled with n well-formed entries (no CDDL upper bound on any of them)
+    for name, ty, b, n in width_sweep(("CoseKey", "CoseKeySet")):
+        out.append(case("dec", ty, b, fam="width-sweep:" + name, **({"expect_re": r"ok .*"} if n >= 1 else {})))
     return out
 
 # ================================================================= C18
@@ -1126,6 +1248,9 @@ def cases_C18(rng, tier):
         out.append(case("dec", "ClaimsSet", enc(M((a, I(1)), (b, I(2)), (a, I(3)))), fam="dup-around:ClaimsSet", expect_re=r"err:\w+"))
         out.append(case("dec", "ClaimsSet", enc(M((a, I(1)), (b, I(2)))), fam="distinct-pair:ClaimsSet",
                         expect="ok [N,N,N,N,N,N,N,[[%s,i0x1],[%s,i0x2]]]" % tuple(("[i0x2,%s]" % pyspec.show(k)) if k[0] == 't' else ("[%s,%s]" % ("i0x0" if k[1] < -65536 else "i0x1", pyspec.show(k))) for k in (a, b))))
+    # every variable-length position filled with n well-formed entries (no CDDL upper bound on any of them)
+    for name, ty, b, n in width_sweep(("ClaimsSet", "CoseKdfContext")):
+        out.append(case("dec", ty, b, fam="width-sweep:" + name, **({"expect_re": r"ok .*"} if n >= 1 else {})))
     return out
 
 # ================================================================= C11
